@@ -113,8 +113,8 @@ def export(ctx):
         ("XmlChoices", "GenXmlX.cfg", n(12, 100), 200, "xml interleaved children"),
         ("OplChoices", "GenOpl.cfg", n(100, 800), 200, "opl simulated choice vectors"),
     ]
-    if not quick:
-        jobs.append(("O5mTable", "GenO5mBulk.cfg", 1, 200000, "o5m real table of 15000 rows, 15010 distinct strings"))
+    if not quick:      # first: it is the longest single run and overlaps with all the others
+        jobs.insert(0, ("O5mTable", "GenO5mBulk.cfg", 1, 200000, "o5m real table of 15000 rows, 15010 distinct strings"))
 
     def one(job):
         mod, cfg, sim, depth, label = job
